@@ -57,7 +57,10 @@ P = {
          " env.step of the implementation is replayed on the env model; an independent reading of flags/makespan runs on every step; when "
          "the correspondence breaks a directed search (phased policies, zero-travel shops, truncation on) looks for a failing input."),
  "C05": ("SM", "Theorems (Props/C05.v): a successful step re-establishes the store and clock invariants, a failing step returns its "
-         "input state (clean failure), offered transitions never fail validation (C05_no_validation_error). Liveness (every offered "
+         "input state (clean failure), offered transitions never fail validation (C05_no_validation_error); OVER WHOLE RUNS, for instances "
+         "whose machine pre- and post-buffers are unordered (the default): the middleware never receives an unsuccessful result "
+         "(success=False) in any run - every transition the simulator applies passes validation where it is applied "
+         "(C05_step_never_reports_failure_flex, SMP/NoFail.v; the check also judges every reported failure in generated episodes). Liveness (every offered "
          "action can be taken, the episode can always finish) is FALSE of the code and refuted by theorem: C05_refuted_step / "
          "C05_refuted_reachable show, for a compiled document reached through the middleware, that accepting the offered action makes "
          "state.step run out of EVERY fuel (lasso lemma SMP/Hang.v; the witness is replayed on the implementation on every run). "
